@@ -1881,6 +1881,9 @@ Proof.
 Qed.
 
 (* ---- per-operation examples, on states of the run above *)
+Lemma room_for_zero l t a : bal_range l -> tx_in t a = 0 -> room_for l t a.
+Proof. intros Hr H0. right. rewrite H0. pose proof (bal_range_bal_of _ a Hr). lia. Qed.
+
 (* S1: the unstaking of block 2 *)
 Example deliver_native_supply_example :
   let s := srun (init_chain hx_genesis) (take 7 hx_ops) in
@@ -1895,8 +1898,67 @@ Proof.
   destruct Hok as (Hu & Ht & _).
   eexists. split; [vm_compute; reflexivity|]. split; [vm_compute; reflexivity|]. split; [zclosed|].
   split; [intros req Hty; discriminate Hty|]. split; [exact Hr|].
-  split; [right; pose proof (bal_range_bal_of _ 11%N Hr) as H; exact (proj2 (Z.add_0_r _ |> fun e => eq_ind_r (fun z => z < two256) (proj2 H) e) |> fun x => x)|].
-  split; [right; pose proof (bal_range_bal_of _ 3%N Hr) as H; exact (eq_ind_r (fun z => z < two256) (proj2 H) (Z.add_0_r _))|].
+  split; [apply room_for_zero; [exact Hr|reflexivity]|].
+  split; [apply room_for_zero; [exact Hr|reflexivity]|].
   split; [intros Hty; discriminate Hty|]. split; [intros _; auto|].
   split; vm_compute; reflexivity.
+Qed.
+
+(* S2: a block whose header reports validator 11 as byzantine (slash ratio 50): its own stake of 100
+   loses 50, the delegated stake of 20 loses 10 *)
+Example begin_block_supply_example :
+  let s := srun (init_chain hx_genesis) (take 6 hx_ops) in
+  let hd := {| h_height := 2; h_proposer := Some 11%N; h_votes := []; h_evidence := [11%N] |} in
+  exists s', begin_block s hd = (s', Ok 0) /\ h_height hd = last_height s + 1 /\
+    0 <= g_slashRatio (gparams s) <= 100 /\ hashes_unique (work s) /\ bonded_nonneg (work s) /\
+    slashed_power s hd = 60 /\ supply (work s') = supply (work s) - 60 * amountPerPower.
+Proof.
+  cbv zeta. set (s := srun (init_chain hx_genesis) (take 6 hx_ops)).
+  assert (Hok : run_ok s) by (apply run_okb_sound; vm_compute; reflexivity).
+  destruct Hok as (Hu & _ & Hpw & _). destruct (powers_ok_parts _ Hpw) as (_ & _ & _ & Hnn).
+  eexists. split; [vm_compute; reflexivity|]. split; [vm_compute; reflexivity|]. split; [zclosed|].
+  split; [exact Hu|]. split; [exact Hnn|]. split; vm_compute; reflexivity.
+Qed.
+
+(* S3: the end of block 3: the proposer is paid 40000, the matured unbonding stake of 20 is refunded *)
+Lemma hx_run12 : exists s, hrun (init_chain hx_genesis, PIdle, ghost0) (take 12 hx_ops) =
+                             Some (s, POpen, {| gh_withdrawn := 5000; gh_slashed := 0; gh_burned := 40000 |}).
+Proof. eexists. vm_compute. reflexivity. Qed.
+
+Example end_block_supply_example :
+  let s := srun (init_chain hx_genesis) (take 12 hx_ops) in
+  exists s' ups, end_block s = (s', Ok ups) /\ bal_range (work s) /\ 0 <= b_feesum (bctx s) < two256 /\
+    frozen_synced s /\
+    (forall a, bal_of (work s) a + end_fee (bctx s) a +
+               refunds_to (sorted_items (frozen (base_of s))) (b_height (bctx s)) a < two256) /\
+    paid_fees (bctx s) = 40000 /\ supply (work s') = supply (work s) + 40000 /\
+    frozen_power (work s) = 20 /\ frozen_power (work s') = 0 /\
+    bal_of (work s') 3%N = bal_of (work s) 3%N + 20 * amountPerPower.
+Proof.
+  cbv zeta.
+  (* the hypotheses come out of the history invariant at that prefix *)
+  destruct hx_run12 as (s & Hrun).
+  pose proof (hrun_srun _ _ _ _ _ _ _ Hrun) as Hs.
+  assert (Hoks : forall pre, pre `prefix_of` take 12 hx_ops -> run_ok (srun (init_chain hx_genesis) pre)).
+  { apply (alongb_prefixes run_okb run_ok _ run_okb_sound). vm_compute. reflexivity. }
+  assert (Htx : txs_ok (take 12 hx_ops)).
+  { unfold txs_ok, hx_ops. cbn [take]. repeat apply Forall_cons_2; try exact I; try apply Forall_nil_2;
+      (split; [zclosed|split; [|reflexivity]]); intros req Hty Hpl; try discriminate Hty.
+    injection Hpl as <-. zclosed. }
+  assert (Hr0 : bal_range (work (init_chain hx_genesis))) by (apply bal_range_decide; vm_compute; reflexivity).
+  assert (Hinv0 : hist_inv (supply (work (init_chain hx_genesis))) (init_chain hx_genesis, PIdle, ghost0)).
+  { cbn [hist_inv pending ghost0 gh_withdrawn gh_slashed gh_burned].
+    split; [lia|]. split; [exact Hr0|]. split; [lia|]. split; [lia|]. split; [lia|]. split; [discriminate|].
+    destruct (init_chain_frozen hx_genesis) as (Hf & Hc). unfold base_of. rewrite Hc, Hf. reflexivity. }
+  assert (Hbound : supply (work (init_chain hx_genesis)) + 5000 < supply_bound) by (vm_compute; reflexivity).
+  pose proof (hist_run _ _ _ _ _ _ _ _ Hrun (along_prefixes _ _ _ Hoks) Htx Hinv0 Hbound) as Hinv.
+  assert (Hok : run_ok s) by (rewrite Hs; apply Hoks; reflexivity).
+  destruct (end_block_hyps_from_inv _ _ _ Hok Hinv Hbound) as (Hr & Hfs & Hsync & Hroom).
+  rewrite <- Hs.
+  assert (Hnum : exists s' ups, end_block s = (s', Ok ups) /\
+    paid_fees (bctx s) = 40000 /\ supply (work s') = supply (work s) + 40000 /\
+    frozen_power (work s) = 20 /\ frozen_power (work s') = 0 /\
+    bal_of (work s') 3%N = bal_of (work s) 3%N + 20 * amountPerPower).
+  { clear -Hs. subst s. eexists. eexists. split; [vm_compute; reflexivity|]. vm_compute. auto 10. }
+  destruct Hnum as (s' & ups & He & Hn). exists s', ups. auto 10.
 Qed.
